@@ -41,6 +41,7 @@ fn subsets_of(archive: Arc<Vec<u8>>, label: &str) -> Result<(u64, u64, u64), Str
         let mut a = bitar::Archive::try_init(reader).await.map_err(|e| format!("{}: try_init: {:?}", label, e))?;
         let (mut judged, mut multi, mut reqs) = (0u64, 0u64, 0u64);
         let mut padded = 0u64;
+        let mut abandoned = 0u64;
         for mask in 1u32..(1u32 << n) {
             let subset: Vec<usize> = (0..n).filter(|i| mask >> i & 1 == 1).collect();
             let mut index = bitar::ChunkIndex::new_empty(model.hash_len);
@@ -59,6 +60,19 @@ fn subsets_of(archive: Arc<Vec<u8>>, label: &str) -> Result<(u64, u64, u64), Str
                 padded += 1;
             }
             mode.store((mask % 4) as u8, std::sync::atomic::Ordering::SeqCst);
+            // Every fifth subset is preceded by a stream over ALL chunks that is abandoned
+            // after its first item (a caller that stops early): nothing of it may leak into
+            // the next stream on the same reader.
+            if mask % 5 == 2 && n >= 2 {
+                let mut all = bitar::ChunkIndex::new_empty(model.hash_len);
+                for d in &model.parsed.dict.descs {
+                    all.add_chunk(bitar::HashSum::from(&d.checksum[..]), d.source_size as usize, &[0]);
+                }
+                let mut st = a.chunk_stream(&all);
+                let _ = st.next().await;
+                drop(st);
+                abandoned += 1;
+            }
             let mark = log.len();
             {
                 let mut st = a.chunk_stream(&index);
@@ -68,6 +82,10 @@ fn subsets_of(archive: Arc<Vec<u8>>, label: &str) -> Result<(u64, u64, u64), Str
                     let want = model.parsed.dict.descs[subset[k]].archive_size as usize;
                     if c.len() != want {
                         return Err(format!("{}: item {} has {} bytes, stored size {}", label, k, c.len(), want));
+                    }
+                    // and it must be THAT chunk: decompress + verify against the descriptor
+                    if c.decompress().ok().and_then(|x| x.verify().ok()).is_none() {
+                        return Err(format!("{}: subset {:?}: item {} is not the chunk of descriptor {} (wrong bytes delivered)", label, subset, k, subset[k]));
                     }
                     k += 1;
                 }
@@ -89,7 +107,7 @@ fn subsets_of(archive: Arc<Vec<u8>>, label: &str) -> Result<(u64, u64, u64), Str
                 multi += 1;
             }
         }
-        let _ = padded;
+        let _ = (padded, abandoned);
         Ok((judged, multi, reqs))
     })
 }
